@@ -258,3 +258,44 @@ package treeset
 //@   ensures [C11 C12] loaded-only: jarr_kind(bytes, keylike(set)) == 3 ==> (forall x like keylike(set) :: Mem(set, x) ==> (exists j :: 0 <= j && j < jarr_len(bytes, keylike(set)) && set.tree.Comparator(x, jarr_at(bytes, j, keylike(set))) == 0))
 //@   ensures [C11 C12] loaded-all: jarr_kind(bytes, keylike(set)) == 3 ==> (forall j :: 0 <= j && j < jarr_len(bytes, keylike(set)) ==> Mem(set, jarr_at(bytes, j, keylike(set))))
 //@   ensures [C12] null: jarr_kind(bytes, keylike(set)) == 2 ==> N(set) == 0
+
+// ---- enumerable (C14): agree with iteration, receiver unchanged ----
+
+//@ -- Each: f is applied exactly to the iterator's pairs at positions 0..n-1, in that order, once each (ghost call log)
+//@ func Set.Each
+//@   requires Inv(set) && f != nil
+//@   modifies nothing
+//@   ensures [C14 C17 C18] loglen == old(loglen) + N(set)
+//@   ensures [C14] calls: forall j :: 0 <= j && j < N(set) ==> logfun(old(loglen) + j) == f && logarg(old(loglen) + j, 0, 0) == j && logarg(old(loglen) + j, 1, keylike(set)) == KeyAt(set, j)
+//@   loop 1:
+//@     invariant ItInv(iterator) && iterator.tree == set.tree && fresh(iterator) && fresh(iterator.iterator) && loglen == old(loglen) + min(iterator.index + 1, N(set))
+//@     invariant forall j :: 0 <= j && j <= iterator.index && j < N(set) ==> logfun(old(loglen) + j) == f && logarg(old(loglen) + j, 0, 0) == j && logarg(old(loglen) + j, 1, keylike(set)) == KeyAt(set, j)
+//@     decreases N(set) - iterator.index
+
+//@ func Set.Any
+//@   requires Inv(set) && f != nil
+//@   modifies nothing
+//@   ensures [C14 C17 C18] result == (exists j :: 0 <= j && j < N(set) && f(j, KeyAt(set, j)))
+//@   loop 1:
+//@     invariant ItInv(iterator) && iterator.tree == set.tree && fresh(iterator) && fresh(iterator.iterator)
+//@     invariant forall j :: 0 <= j && j <= iterator.index && j < N(set) ==> !f(j, KeyAt(set, j))
+//@     decreases N(set) - iterator.index
+
+//@ func Set.All
+//@   requires Inv(set) && f != nil
+//@   modifies nothing
+//@   ensures [C14 C17 C18] result == (forall j :: 0 <= j && j < N(set) ==> f(j, KeyAt(set, j)))
+//@   loop 1:
+//@     invariant ItInv(iterator) && iterator.tree == set.tree && fresh(iterator) && fresh(iterator.iterator)
+//@     invariant forall j :: 0 <= j && j <= iterator.index && j < N(set) ==> f(j, KeyAt(set, j))
+//@     decreases N(set) - iterator.index
+
+//@ func Set.Find
+//@   requires Inv(set) && f != nil
+//@   modifies nothing
+//@   ensures [C14 C17 C18] found: result0 >= 0 ==> result0 < N(set) && result1 == KeyAt(set, result0) && f(result0, result1) && (forall j :: 0 <= j && j < result0 ==> !f(j, KeyAt(set, j)))
+//@   ensures [C14 C17 C18] notfound: result0 < 0 ==> result0 == 0 - 1 && result1 == zero(result1) && (forall j :: 0 <= j && j < N(set) ==> !f(j, KeyAt(set, j)))
+//@   loop 1:
+//@     invariant ItInv(iterator) && iterator.tree == set.tree && fresh(iterator) && fresh(iterator.iterator)
+//@     invariant forall j :: 0 <= j && j <= iterator.index && j < N(set) ==> !f(j, KeyAt(set, j))
+//@     decreases N(set) - iterator.index
